@@ -47,6 +47,7 @@ template <class T> using B_ = xsimd::batch<T, A>;
 template <class T> using M_ = xsimd::batch_bool<T, A>;
 template <class T> using R_ = typename xsimd::batch<T, A>::register_type;
 template <class T> using Q_ = typename xsimd::batch_bool<T, A>::register_type;
+template <class T> using C_ = xsimd::batch<std::complex<T>, A>;
 extern "C" {
 R_<int8_t> ext_f_i8(R_<int8_t>, R_<int8_t>) noexcept; R_<uint8_t> ext_f_u8(R_<uint8_t>, R_<uint8_t>) noexcept;
 R_<int16_t> ext_f_i16(R_<int16_t>, R_<int16_t>) noexcept; R_<uint16_t> ext_f_u16(R_<uint16_t>, R_<uint16_t>) noexcept;
